@@ -36,3 +36,16 @@ silent(P, "rx-simplify-modulus-respelled-and-local-renamed",
 silent(P, "rot-simplify-explicit-tuple-instead-of-generator",
        [(SQ, "        p0, p1, p2 = (p % (4 * np.pi) for p in self.data)",
              "        p0, p1, p2 = (self.data[0] % (4 * np.pi), self.data[1] % (4 * np.pi), self.data[2] % (4 * np.pi))")])
+
+# --- R-C03-adjrep
+_ADJ = "pennylane/ops/op_math/adjoint.py"
+_ADJ2 = "pennylane/ops/op_math/adjoint2.py"
+fire("C03", "adjoint-reuses-base-pauli-rep-unconjugated",
+     (_ADJ, "        if self.base.pauli_rep:\n            pr = {pw: qp.math.conjugate(coeff) for pw, coeff in self.base.pauli_rep.items()}\n            self._pauli_rep = qp.pauli.PauliSentence(pr)\n        else:\n            self._pauli_rep = None",
+            "        self._pauli_rep = self.base.pauli_rep or None"),
+     "R-C03-adjrep", "Adjoint.__init__")
+fire("C03", "adjoint2-copies-coefficients-without-conjugation",
+     (_ADJ2, "            rep = {pw: math.conjugate(c) for pw, c in self.base.pauli_rep.items()}", "            rep = {pw: c for pw, c in self.base.pauli_rep.items()}"),
+     "R-C03-adjrep", "Adjoint2.pauli_rep")
+silent("C03", "adjoint-conjugates-through-numpy-conj",
+       [(_ADJ, "            pr = {pw: qp.math.conjugate(coeff) for pw, coeff in self.base.pauli_rep.items()}", "            pr = {pw: qp.math.conj(coeff) for pw, coeff in self.base.pauli_rep.items()}")])
